@@ -196,6 +196,11 @@ pub fn setup(start: &Start, rep: &mut Report) -> Option<Board> {
     }
 }
 
+/// what the output board of `make_move` holds before the call: anything at all - here the source itself
+fn start_board_filler(b: &Board) -> Board {
+    *b
+}
+
 fn pick_move(rng: &mut Rng, p: &RPos, legal: &[RMove]) -> RMove {
     if rng.chance(1, 2) {
         // prefer rare move kinds
@@ -280,7 +285,15 @@ pub fn playout(start: &Start, cfg: &WalkCfg, rng: &mut Rng, mon: &mut dyn NodeMo
         }
         move_features(&p, m, rep);
         rep.event(format!("{} {}", p.fen(), m.uci()));
-        let nb = b.make_move_new(lm);
+        // both move-application entry points take part in building histories
+        let nb = if rng.chance(1, 2) {
+            b.make_move_new(lm)
+        } else {
+            rep.count("f_steps_via_make_move");
+            let mut out = start_board_filler(&b);
+            b.make_move(lm, &mut out);
+            out
+        };
         let np = p.make(m);
         if cfg.stop_on_divergence && !same_core(&read_board(&nb), &np) {
             rep.count("diverged_stop");
@@ -323,7 +336,14 @@ pub fn tree(start: &Start, depth: usize, rng: &mut Rng, mon: &mut dyn NodeMon, r
                 continue;
             }
             move_features(p, *m, rep);
-            let nb = b.make_move_new(lm);
+            let nb = if rng.chance(1, 2) {
+                b.make_move_new(lm)
+            } else {
+                rep.count("f_steps_via_make_move");
+                let mut out = start_board_filler(b);
+                b.make_move(lm, &mut out);
+                out
+            };
             let np = p.make(*m);
             if !same_core(&read_board(&nb), &np) {
                 rep.count("diverged_stop");
